@@ -126,12 +126,17 @@ def db_operation_facts(model, opname):
     extra = [r for r in all_rets if delegating_call(r) is None]
     rets = [r for r in all_rets if delegating_call(r) is not None]
     fn_extra_returns = extra
+    plain = None
+    if not rets and len(all_rets) == 1 and isinstance(all_rets[0].value, ast.Call):
+        # a single return that calls something else than the shared routine: reported by the caller (wrong callee)
+        plain = all_rets[0]
+        rets, extra, fn_extra_returns = [plain], [], []
     if len(rets) != 1:
         if extra and not rets:
             raise AnalysisError("UnitDatabase.%s: no return delegates to the shared operation routine (another algorithm: the checker cannot tell what it computes)" % opname)
         if len(rets) != 1:
             raise AnalysisError("UnitDatabase.%s: expected a single delegating return" % opname)
-    call = delegating_call(rets[0])
+    call = delegating_call(rets[0]) if plain is None else plain.value
     db_operation_facts.extra_returns = fn_extra_returns
     callee = call.func.attr if isinstance(call.func, ast.Attribute) else None
     cf = model.lookup("UnitDatabase", callee) if callee else None
